@@ -52,7 +52,7 @@ fuzz_target!(|data: &[u8]| {
             AnyCase::Quad(QuadCase { kind, how, content: QuadContent::Explicit(q), salt: plan_seed & 2, plan_seed })
         }
     };
-    let way = pick(&mut u, &[Way::Direct, Way::Clone, Way::Serde, Way::CloneOfSerde, Way::Convert]);
+    let way = pick(&mut u, &[Way::Direct, Way::Clone, Way::Serde, Way::CloneOfSerde, Way::Convert, Way::CloneFrom]);
     let mut calls = Vec::new();
     while let Ok(m) = u.arbitrary::<u8>() {
         let a = arg(&mut u);
